@@ -2,8 +2,13 @@
 //
 // Four parts, all exhaustive within their stated bounds (no sampling):
 //   pure    value lattice on CoopCloseBalance + CreateCooperativeCloseTx from both perspectives
+//           (incl. the fee that leaves both parties the same amount = BIP69 tie, and OP_RETURN
+//           delivery scripts in the custom-sequence mode)
 //   api     CreateCloseProposal x2 + CompleteCooperativeClose x2 on real channels (all 7 types,
-//           both openers, legacy and RBF options, delivery-script pairs, fee lattice)
+//           both openers, legacy and RBF options, delivery-script pairs, fee lattice incl. the
+//           tie fee, OP_RETURN delivery with RBF options)
+// The job lists of all families are merged proportionally (plan), so a deadline cuts the tail
+// of every family, never a whole part.
 //   legacy  two real chancloser.ChanCloser negotiating over all ideal-fee pairs (caps 1x/3x/exact,
 //           shutdown by either party or both at once, early offer, upfront scripts, thaw height,
 //           low balances with lnd's own fee estimator)
@@ -284,7 +289,7 @@ func TestC17(t *testing.T) {
 	}
 	run.Assumptions = append(run.Assumptions,
 		"fixed key material and funding outpoint; MuSig2 nonces are random (no oracle depends on them)",
-		"delivery scripts are well-formed p2wkh/p2wsh/p2tr; OP_RETURN delivery (RBF flow zeroes the amount) and aux/custom-channel extra outputs are outside the alphabet",
+		"delivery scripts are well-formed p2wkh/p2wsh/p2tr/future-witness (wire flows) plus p2sh/p2pkh and OP_RETURN (bare and data-carrying) on the channel API and the tx builder; an OP_RETURN owner's output is judged by the BOLT 2 simple-close rule (amount zero, present iff the owner's balance reaches its dust limit), only in the custom-sequence (RBF) flow: lnd's shutdown validation refuses OP_RETURN, so the legacy and RBF state machines are not driven with it; aux/custom-channel extra outputs and custom sorters are outside the alphabet",
 		"RBF state machines are driven synchronously through their ProcessEvent methods with the real message mapper; protofsm's goroutine executor, link flushing and chain notifications are replaced by the harness driver (Environment.BlockHeight = 0 as in peer.initRbfChanCloser); the driver controls when the link's flush event and a post-send event are handed in (early-offer windows) and models a reconnect as fresh machines without a link on freshly loaded channel objects (ResetState)",
 		"negotiation alphabet: ideal fees in [100,700] sat (low-balance channels: [100,400] sat, or 200..500 sat/kw through lnd's SimpleCoopFeeEstimator), caps 1x / 3x / exactly the other side's ideal; the opener can afford every fee in the range",
 		"upfront shutdown scripts are {none, equal to the delivery scripts}; a frozen (lease) channel is closed at {far above, exactly at} its thaw height; closes below the thaw height and mismatching upfront scripts (honest refusals) are not enumerated",
